@@ -766,8 +766,14 @@ def maybe_model(spec, requests, path, C, i):
             break
     if not steps:
         return
+    steps = steps[:12]          # the request carries every trial vector of the continuation: bounded per request
     start = C.start_snap if hasattr(C, "start_snap") else None
     if start is None:
+        return
+    if not start["live"] and spec.get("ranges"):
+        # a restart file written after a stop: the next Step re-decorates the objective first, which under strict
+        # ranges is not neutral (F20: Nelder-Mead rebuilds its simplex; DE re-clips). Original and copy do the same
+        # (the monitor compares them); the model has no re-decoration and is not asked
         return
     meta = {"spec": view(spec), "path": path, "cut": i}
     # --- control loop
@@ -854,6 +860,10 @@ def ctl_request(spec, start, C, hist):
     pg, pe, pn = g0, e0, n0
     tprev = C.term[0]
     for k, (r, sc) in enumerate(hist):
+        if k > 0 and hist[k - 1][0]["msg"]:
+            # after a stop the next Step first re-decorates the objective (which, under strict ranges, moves the
+            # simplex - F20) BEFORE it tests the stop conditions: the verdict sampled here is not the one Step sees
+            break
         tpost = C.term[k + 1]
         ran = r["dstep"] > 0 or r["real"] > 0
         ns = len(unarr(sc["stepmon_y"]))
@@ -1027,7 +1037,7 @@ def main(tier, seed):
     if tier == "quick":
         nshards, per, budget = 16, 26, 50
     else:
-        nshards, per, budget = 64, 40, 170
+        nshards, per, budget = 64, 24, 170
     run = framework.run_shards("c06", "run_shard", PID, seed, nshards, per, tier, extra={"budget": budget})
 
     def search_more():
